@@ -179,7 +179,7 @@ def _run_unit(unit, canaries=True, keep=None, extra=None):
     if keep:
         shutil.copy(path, keep)
     cmd = [VERUS, fname, '--edition', '2024', '--output-json', '--time-expanded', '--multiple-errors', '8',
-           '--triggers-mode', 'silent', '--rlimit', RLIMIT, '--', '--error-format=json']
+           '--triggers-mode', 'silent', '--rlimit', RLIMIT] + os.environ.get('VERIF_VERUS_EXTRA', '').split() + ['--', '--error-format=json']
     res['cmd'] = ' '.join(cmd) + f'   (file generated from units/{unit}/unit.vs + /repo working tree)'
     try:
         p = subprocess.run(cmd, cwd=wd, capture_output=True, text=True, timeout=int(os.environ.get('VERIF_VERUS_TIMEOUT', '900')))
